@@ -44,6 +44,15 @@ chk("C06", "model_checking", "contract-automaton lock-step explorer",
     "All histories over an alphabet containing the five finish entry points at any position: a recording sink stamps every write with the API call in progress; nothing may be written outside the first successful finish, everything afterwards must fail, and the statistics must equal accepted frame counts, sink bytes and the largest presentation end time within one tick.",
     READER, "DESIGN.md §4 C06")
 
+chk("C10", "model_checking", "E5-fragment-search",
+    "explicit-state search of the FragmentedMuxer state graph (states keyed on the derived Debug output) with a FIFO reference model in lock-step",
+    "From every state reachable within the depth bound every operation of the alphabet (12 relative writes, flush, readiness/duration queries, init) is executed on the real FragmentedMuxer next to a reference model; segments are parsed by the independent reader and sample bytes are located through data_offset relative to the moof. Rejected writes, empty flushes and queries must leave the complete Debug state unchanged.",
+    READER + " Equal Debug output is taken as equal state (all fields are printed).", "DESIGN.md §4 C10")
+chk("C11", "model_checking", "E5-fragment-search",
+    "explicit-state search of the FragmentedMuxer state graph over a decode-time step alphabet, timeline reference model in lock-step",
+    "All write/flush/init interleavings over a timeline alphabet (steps 0, 1, 3000, 3003, 100000, rejected -1; start DTS 0 and 9000) to the depth bound: per-segment durations, composition offsets and sync flags against the submitted values; base decode time monotone, never before the previous segment's last sample, constant offset for constant-interval streams; init segment byte-identical on every request.",
+    READER, "DESIGN.md §4 C11")
+
 NOT_YET = {
 }
 
